@@ -2,7 +2,9 @@
    Definitions only. *)
 From Coq Require Import List Arith Bool PeanoNat.
 Import ListNotations.
-Require Import TL.Model.Core TL.Model.CoreTables TL.Model.CoreC06.
+Require Import TL.Model.Core.
+Require Import TL.Model.CoreTables.
+Require Import TL.Model.CoreC06.
 
 Definition mem_nat (l : list nat) (n : nat) : bool := existsb (Nat.eqb n) l.
 Definition mem_leafcall (l : list (nat * pv)) (s : nat) (v : pv) : bool :=
